@@ -86,13 +86,24 @@ def ob_try_parse(report):
     def body(ob):
         ex = e2.executor('anemo', TIMEOUT_MODELS, max_depth=3)
         fn = find_fn(ex.prog, r'^try_parse_timeout$')
-        res = ex.run(fn, [Ptr(('H', 'headers', 'HeaderMap'))])
+        t0 = (fn.decl.get(fn.args[0], '') if fn.args else '').strip()
+        by_value = re.fullmatch(r"(std::option::|core::option::)?Option<&('\w+ )?(str|String|std::string::String)>", t0) is not None
+        if by_value:
+            # the caller looks the header up and hands over the raw text (if any): absent | present with an arbitrary text
+            p1, p2 = Path(), Path()
+            p1.pc.append(z3.Not(PRESENT))
+            p2.pc.append(PRESENT)
+            cell = ('H', 'hdr_text', 'String')
+            p2.mem[cell] = Sym('hdr_text', 'std::string::String')
+            res = ex.run(fn, [MD.NONE], p1) + ex.run(fn, [MD.some(Ptr(cell))], p2)
+        else:
+            res = ex.run(fn, [Ptr(('H', 'headers', 'HeaderMap'))])
         seen = set()
         for r in res:
             if r.tag != 'return':
                 return viol(ob, [ex], f'try_parse_timeout can {r.tag}', 'parse-abnormal', path_summary(r), len(res))
             g = [e for e in r.events if e.kind == 'hdr-get']
-            if len(g) != 1 or not (isinstance(g[0].args[0], Str) and g[0].args[0].s == 'timeout'):
+            if not by_value and (len(g) != 1 or not (isinstance(g[0].args[0], Str) and g[0].args[0].s == 'timeout')):
                 return viol(ob, [ex], f'header looked up is {[vrepr(x.args[0]) for x in g]}, not "timeout"', 'parse-key', path_summary(r), len(res))
             ret = r.ret
             pres = implied(ex, r.pc, PRESENT)
